@@ -288,6 +288,37 @@ def run_extra(cx):
               'candidate positions are ranked by their ABSOLUTE distance |x - x0| from the reference position and the nearest is taken (a signed difference would pick the farthest-back one)',
               where=b.file, found='; '.join(show(d)[:200] for d in ev))
 
+    # ---------------------------------------------------------------- refinement: the midway ray is taken AFTER the new station is oriented like the last one
+    b = cx.fn('airfoil::helpers::refine_stations')
+    if b:
+        sy = b.calls('*SpanningRay::symmetry')
+        oks = len(sy) == 1
+        if oks:
+            a0, a1 = cx.arg(sy[0], 0), cx.arg(sy[0], 1)
+            # receiver: the ray of the oriented station (the popped one, or its reversal), other: the ray of the last accepted station
+            POP = '(unwrap (call Vec::pop _))'
+            forms = (f'(field spanning_ray (phi $x (call *InscribedCircle::reversed $x)))', f'(field spanning_ray (phi (call *InscribedCircle::reversed $x) $x))',
+                     f'(phi (field spanning_ray (call *InscribedCircle::reversed $x)) (field spanning_ray $x))', f'(phi (field spanning_ray $x) (field spanning_ray (call *InscribedCircle::reversed $x)))')
+            oks = any(match(f_, a0) is not None for f_ in forms)
+            oks = oks and (find('(call *::last (anyphi (param dest)))', a1) is not None or find('(last (anyphi (param dest)))', a1) is not None)
+        cx.ob('ORDER', 'refine_stations:midway-ray-after-orientation', oks,
+              'the symmetry (midway) ray is built from the new station AFTER it has been flipped to point like the last accepted one; two opposed rays have a '
+              'midway ray along the camber line, which spans nothing, and the station would be dropped silently', where=b.file,
+              found=show(cx.arg(sy[0], 0))[:300] if sy else None)
+    # ---------------------------------------------------------------- radius gauge: negative radii are measured from the trailing edge, positive from the leading edge
+    b = cx.fn('airfoil::AirfoilGeometry::get_thickness')
+    if b:
+        seen = {}
+        for s_ in b.calls('*Circle2::from_point'):
+            c0, r0 = cx.arg(s_, 0), cx.arg(s_, 1)
+            neg = cx.guarded(b, s_.bb, '(lt (variant Radius _) 0.0)', True) is not None or cx.guarded(b, s_.bb, '(lt (field 0 (variant Radius _)) 0.0)', True) is not None
+            pos = cx.guarded(b, s_.bb, '(lt (variant Radius _) 0.0)', False) is not None or cx.guarded(b, s_.bb, '(lt (field 0 (variant Radius _)) 0.0)', False) is not None
+            edge = 'trailing' if find('(self trailing_edge)', c0) is not None else ('leading' if find('(self leading_edge)', c0) is not None else '?')
+            negated = r0[0] == 'neg'
+            seen['neg' if neg else ('pos' if pos else '?')] = (edge, negated)
+        cx.ob('GUARD', 'get_thickness:radius-gauge', seen == {'neg': ('trailing', True), 'pos': ('leading', False)},
+              'a negative gauge radius is measured from the TRAILING edge (with radius -r), a non-negative one from the leading edge', where=b.file, found=str(seen))
+
 
 def run_thorough(cx):
     """thorough tier: the generic evaluators this property relies on must fire on their positive fixture twins"""
